@@ -141,8 +141,12 @@ def live_entries(cache):
     return out
 
 
+def sub_windows(cfg):
+    return [cfg["window"] or None, None] if cfg.get("kind") == "wrapper" else [cfg["window"] or None]
+
+
 def monitor_case(case, obs):
-    """-> list of (sig, what, detail) for one history (single Causal cache)"""
+    """-> list of (sig, what, detail) for one history; a WrapperCache is judged on each of its two caches"""
     out = []
     if obs is None:
         return [({"class": "no-observation"}, "harness produced no observation", {})]
@@ -150,16 +154,24 @@ def monitor_case(case, obs):
         return [({"class": "panic"}, "harness panicked: %s" % obs["panic"], {})]
     if obs.get("anomalies"):
         out.append(({"class": "backend-anomaly"}, "fake backend saw an inconsistent request: %s" % obs["anomalies"][:3], {}))
-    cfg = case["cfg"]
-    w = cfg["window"] or None
+    for k, w in enumerate(sub_windows(case["cfg"])):
+        out.extend(monitor_sub(case, obs, k, w))
+    return out
+
+
+def monitor_sub(case, obs, k, w):
+    out = []
+    wrapped = case["cfg"].get("kind") == "wrapper"
+    tag = {"sub": k} if wrapped else {}
     ideal = Ideal(w)
     prev = None
     for si, st in enumerate(obs.get("steps", [])):
         pr = st["prim"]
         if "panic" in st:
-            out.append(({"class": "panic", "op": pr["op"]}, "%s panicked: %s" % (pr["op"], st["panic"]), {"step": si}))
+            if k == 0:
+                out.append(({"class": "panic", "op": pr["op"]}, "%s panicked: %s" % (pr["op"], st["panic"]), {"step": si}))
             break
-        cache = st["caches"][0]
+        cache = st["caches"][k]
         if cache.get("layerdiff"):
             out.append(({"class": "layers-differ"}, "the layers of the cache hold different data after step %d" % si, {"step": si}))
         if pr["op"] == "fwd":
@@ -174,19 +186,20 @@ def monitor_case(case, obs):
                 for q in set(before) | set(after):
                     exp = [x for x in before.get(q, []) if not (w and q in low and x[0] < low[q] - w)]
                     if exp != after.get(q, []):
-                        out.append(({"class": "full-changed-live-entries", "window": bool(w)},
+                        out.append((dict({"class": "full-changed-live-entries", "window": bool(w)}, **tag),
                                     "StartForward returned ErrKvCacheFull but the live entries of sequence %d changed: %s -> %s" % (q, before.get(q), after.get(q)),
                                     {"step": si, "seq": q}))
                         break
             elif st.get("err"):
-                out.append(({"class": "forward-error", "err": st["err"][:40]}, "StartForward failed with %s" % st["err"], {"step": si}))
+                if k == 0:
+                    out.append(({"class": "forward-error", "err": st["err"][:40]}, "StartForward failed with %s" % st["err"], {"step": si}))
             else:
                 ideal.forward(batch)
-                f = st["fw"][0]
+                f = st["fw"][k]
                 if f.get("layerdiff"):
                     out.append(({"class": "layers-differ"}, "Get returned different histories for different layers at step %d" % si, {"step": si}))
                 if f["length"] != f["max"] - f["min"] + 1 or f["cached"] != f["length"] or not f["padok"]:
-                    out.append(({"class": "mask-shape"}, "mask/view shape inconsistent at step %d: %s" % (si, {k: f[k] for k in ("length", "cached", "min", "max", "rows", "padok")}), {"step": si}))
+                    out.append(({"class": "mask-shape"}, "mask/view shape inconsistent at step %d: %s" % (si, {x: f[x] for x in ("length", "cached", "min", "max", "rows", "padok")}), {"step": si}))
                 for i, (q, p, t) in enumerate(batch):
                     if q in ideal.dirty:
                         continue
@@ -201,7 +214,7 @@ def monitor_case(case, obs):
                             break
                         seen.append((v[1], v[0]))
                     if bad:
-                        out.append(({"class": "exposed-garbage", "window": bool(w)},
+                        out.append((dict({"class": "exposed-garbage", "window": bool(w)}, **tag),
                                     "token %d of step %d (seq %d pos %d) attends to location %d which holds %s" % (i, si, q, p, bad[0], bad[1]), {"step": si, "token": i}))
                         continue
                     seen.sort()
@@ -209,13 +222,13 @@ def monitor_case(case, obs):
                     extra, missing = multiset_diff(seen, exp), multiset_diff(exp, seen)
                     if extra:
                         kind = classify_extra(ideal, q, p, extra, missing)
-                        out.append(({"class": kind, "window": bool(w)},
+                        out.append((dict({"class": kind, "window": bool(w)}, **tag),
                                     "token %d of step %d (seq %d pos %d) attends to (kpos,token) %s which are not the entries stored for its sequence at positions <= %d%s; expected %s, exposed %s"
                                     % (i, si, q, p, extra, p, " in the window" if w else "", exp, seen), {"step": si, "token": i}))
                     elif missing and (w is None or ideal.st(q) == "ok"):
                         ft = ideal._f(q)
                         mid = ft["mid"] is not None and all(m[0] < ft["mid"] for m in missing)
-                        out.append(({"class": "missing", "window": bool(w), "mid": bool(mid), "copy": bool(ft["copy"]), "trunc": bool(ft["trunc"])},
+                        out.append((dict({"class": "missing", "window": bool(w), "mid": bool(mid), "copy": bool(ft["copy"]), "trunc": bool(ft["trunc"])}, **tag),
                                     "token %d of step %d (seq %d pos %d) does not see the stored entries %s; expected %s, exposed %s"
                                     % (i, si, q, p, missing, exp, seen), {"step": si, "token": i}))
         elif pr["op"] == "copy":
@@ -250,6 +263,8 @@ def classify_extra(ideal, q, p, extra, missing):
 
 def cache_size(cfg):
     w, s, c, b = cfg["window"], cfg["maxseq"], cfg["capacity"], cfg["maxbatch"]
+    if cfg.get("kind") == "wrapper":
+        return min(cache_size(dict(cfg, kind="swa")), cache_size(dict(cfg, kind="causal", window=0)))
     raw = s * c if (not w or c < w) else s * w + b
     pad = cfg["cpad"] or 1
     return (raw + pad - 1) // pad * pad
@@ -264,6 +279,9 @@ def gen_cfg(rng, klass):
         cfg["window"] = rng.choice([1, 2, 2, 3, 3, 4, 5, 6, 7, 8])
         cfg["kind"] = "swa"
         cfg["capacity"] = rng.randint(2, 12)
+    if klass == "wrapper":
+        cfg["kind"] = "wrapper"
+        cfg["layers"] = rng.choice([2, 2, 3, 4])
     if klass in ("defrag", "full"):
         cfg["cpad"] = rng.choice([0, 1, 1, 2])
         cfg["maxbatch"] = rng.randint(2, 4)
@@ -478,8 +496,8 @@ def gen_history(rng, cfg, klass, nops):
     return ops
 
 
-SWA = ("swa", "swa-resume", "swa-copy", "swa-shift")
-KLASSES = ["mixed", "mixed", "defrag", "defrag", "defrag", "full", "copy", "remove", "wild", "swa", "swa", "swa-resume", "swa-copy", "swa-shift"]
+SWA = ("swa", "swa-resume", "swa-copy", "swa-shift", "wrapper")
+KLASSES = ["mixed", "mixed", "defrag", "defrag", "defrag", "full", "copy", "remove", "wild", "swa", "swa", "swa-resume", "swa-copy", "swa-shift", "wrapper", "wrapper"]
 
 
 def gen_case(rng, klass=None, nops=None):
@@ -524,7 +542,7 @@ def r_op(pr):
     return "ZQ %d %s" % (pr["seq"], zn(pr["pos"]))
 
 
-def r_out(st):
+def r_out(st, k=0):
     pr = st["prim"]
     if "panic" in st:
         return "BPanic"
@@ -533,7 +551,7 @@ def r_out(st):
             return "BFull"
         if st.get("err"):
             return "BPanic"
-        f = st["fw"][0]
+        f = st["fw"][k]
         return "(BFwd %d %s %s [%s])" % (f["loc"], zn(f["min"]), zn(f["max"]), ";".join(zl(v) for v in f["vis"]))
     if pr["op"] == "rm":
         if not st.get("err"):
@@ -548,14 +566,20 @@ def r_out(st):
     return "BOk"
 
 
-def r_obs(st):
+def r_obs(st, k=0):
     if "panic" in st:
         return "(mkObs BPanic [] [] [] false)"
-    c = st["caches"][0]
+    c = st["caches"][k]
     cells = "[" + ";".join("(%s,%s)" % (zn(x[0]), zl(x[1])) for x in c["cells"]) + "]"
     ranges = "[" + ";".join("(%d,(%s,%s))" % (r[0], zn(r[1]), zn(r[2])) for r in c["ranges"]) + "]"
     phys = "[" + ";".join("None" if not isinstance(p, list) else "Some (%s,%s)" % (zn(p[0]), zn(p[1])) for p in c["phys"]) + "]"
-    return "(mkObs %s %s %s %s %s)" % (r_out(st), cells, ranges, phys, "true" if c["nlayers"] > 0 else "false")
+    return "(mkObs %s %s %s %s %s)" % (r_out(st, k), cells, ranges, phys, "true" if c["nlayers"] > 0 else "false")
+
+
+def r_step(case, st):
+    if case["cfg"].get("kind") == "wrapper":
+        return "(%s, (%s, %s))" % (r_op(st["prim"]), r_obs(st, 0), r_obs(st, 1))
+    return "(%s, %s)" % (r_op(st["prim"]), r_obs(st))
 
 
 def r_cfg(cfg):
@@ -575,14 +599,17 @@ def unrenderable(obs):
 def render(case, obs):
     if unrenderable(obs):
         return "false"
-    steps = ";\n      ".join("(%s, %s)" % (r_op(st["prim"]), r_obs(st)) for st in obs["steps"])
+    steps = ";\n      ".join(r_step(case, st) for st in obs["steps"])
+    if case["cfg"].get("kind") == "wrapper":
+        return "chk_whistory %s %s %d %d\n     [%s]" % (FX, r_cfg(case["cfg"]), obs["ncells"][0], obs["ncells"][1], steps)
     return "chk_history %s %s %d\n     [%s]" % (FX, r_cfg(case["cfg"]), obs["ncells"][0], steps)
 
 
 def model_term(case, obs):
     ops = ";".join(r_op(st["prim"]) for st in obs["steps"])
-    steps = ";\n      ".join("(%s, %s)" % (r_op(st["prim"]), r_obs(st)) for st in obs["steps"])
-    return "(where_diff %s %s [%s], model_trace %s %s [%s])" % (FX, r_cfg(case["cfg"]), steps, FX, r_cfg(case["cfg"]), ops)
+    steps = ";\n      ".join(r_step(case, st) for st in obs["steps"])
+    sfx = "_w" if case["cfg"].get("kind") == "wrapper" else ""
+    return "(where_diff%s %s %s [%s], model_trace%s %s %s [%s])" % (sfx, FX, r_cfg(case["cfg"]), steps, sfx, FX, r_cfg(case["cfg"]), ops)
 
 
 # ------------------------------------------------------------------ running
